@@ -107,6 +107,15 @@ func (f *Filter) IsAllowed(res Resource) bool {
 
 func checkVal(op string, rval, cval any) bool {
 	switch rval := rval.(type) {
+	case nil:
+		switch op {
+		case "=":
+			return cval == nil
+		case "!=":
+			return cval != nil
+		default:
+			return false
+		}
 	case string:
 		return checkStr(op, rval, cval.(string))
 	case int:
